@@ -165,7 +165,7 @@ theorem step_outs (c c' : Chan) (ev : Ev) (ms : List Msg) (os : List Out) (hw : 
     obtain ⟨e, h2, h3, h4, _, _, h6, _⟩ := writeEof_spec _ _ _ hw.s h1
     exact StepOuts.silent h2 h3 h4 h6 (fun h => Or.inl (e.sendLate h))
   | close =>
-    obtain ⟨c1, h1, h2⟩ := step_close_ok h
+    obtain ⟨c1, ms1, h1, h2⟩ := step_close_ok h
     have hsr : SameRecv c c1 := by
       rcases h1 with ⟨hs1, hs2, h1⟩ | ⟨_, hc1, _⟩
       · have hop : c.sendChanOpen = true := hw.s.chanOpen.mpr hs2
@@ -176,7 +176,7 @@ theorem step_outs (c c' : Chan) (ev : Ev) (ms : List Msg) (os : List Out) (hw : 
           sp.same.recvState, sp.same.recvWindow, sp.same.recvPaused, sp.same.recvBuf, sp.same.pauseAfter,
           sp.same.recvEofPending⟩
       · rw [hc1]; exact SameRecv.refl c
-    rcases h2 with ⟨hr, hc', ho'⟩ | ⟨hr, hc', ho'⟩
+    rcases h2 with ⟨hr, hc', _, ho'⟩ | ⟨hr, hc', _, ho'⟩
     · have hss := discardRecv_spec c1
       rw [hc', ho']
       refine ⟨?_, ?_, fun hf => Or.inl (by rw [← hsr.recvEofPending, ← hss.recvEofPending]; exact hf), ?_, ?_, ?_, ?_,
@@ -287,7 +287,7 @@ theorem step_late (c c' : Chan) (ev : Ev) (ms : List Msg) (os : List Out) (hw : 
     obtain ⟨e, _⟩ := writeEof_spec _ _ _ hw.s h1
     exact ⟨e.lateMono, fun h => by cases h⟩
   | close =>
-    obtain ⟨c1, h1, h2⟩ := step_close_ok h
+    obtain ⟨c1, ms1, h1, h2⟩ := step_close_ok h
     have hl1 : SendLate c1 := by
       rcases h1 with ⟨hs1, hs2, h1⟩ | ⟨hl, hc1, _⟩
       · have hop : c.sendChanOpen = true := hw.s.chanOpen.mpr hs2
@@ -296,7 +296,7 @@ theorem step_late (c c' : Chan) (ev : Ev) (ms : List Msg) (os : List Out) (hw : 
         exact (flushSend_spec _ _ _ hw0 h1).lateMono (Or.inl rfl)
       · rw [hc1]; exact hl
     have hl' : SendLate c' := by
-      rcases h2 with ⟨_, hc', _⟩ | ⟨_, hc', _⟩
+      rcases h2 with ⟨_, hc', _, _⟩ | ⟨_, hc', _, _⟩
       · rw [hc']; unfold SendLate at *; rw [(discardRecv_spec c1).sendState]; exact hl1
       · rw [hc']; exact hl1
     exact ⟨fun _ => hl', fun _ => hl'⟩
